@@ -157,6 +157,17 @@ def _nearest(ctx, p, fn, b, bi, t, info):
             probs.append('the scan %s does not cover the container from index <= 1 to its end' % fmt_terms(src)[:80])
             continue
         lo_seen = sc[0]
+        # the scan runs to the end of the container: the loop in which the index is updated is left only when its
+        # iterator is exhausted (an early `break` makes the result "the first node that is good enough", not the nearest)
+        inl = [L for L in fn.loops() if db in L['body']]
+        if inl:
+            Ls = min(inl, key=lambda l: len(l['body']))
+            for (src_b, dst_b) in Ls['exits']:
+                si_ = fn.switch_info(src_b)
+                normal = si_ is not None and si_[0] and all(x[0] == 'discr' for x in si_[0])
+                if not normal and fn.blocks[dst_b]['term']['k'] != 'unreachable':
+                    probs.append('the nearest-node scan can stop early at %s: the node steered from is then not the nearest one' % fn.loc(src_b))
+                    break
         # the update is guarded by  dist_i < running_min  (strict), dist_i = distance(cont[i].state, target)
         facts = cmp_facts(fn, db)
         okcmp = False
